@@ -85,6 +85,49 @@ type subVal struct {
 type geoTab struct {
 	Data map[netip.Addr]locIdx // absent = no location (nil)
 	Sub  map[subKey]subVal     // absent = zero prefix of the family
+
+	// liveData/liveSubnet, when set, are what the stack under test is given as
+	// GeoIP (a real geoip.File); the tables above then describe what is
+	// expected of it and are used by the oracle and the model run only.
+	liveData   func(a netip.Addr) *geoip.Location
+	liveSubnet func(l *geoip.Location, fam netutil.AddrFamily) (netip.Prefix, error)
+	// ctryNames/subdivNames override the default name pools; asnIsValue says
+	// that locIdx.ASN is the ASN itself, not an index into asnVals.
+	ctryNames   []geoip.Country
+	subdivNames []string
+	asnIsValue  bool
+}
+
+func (g *geoTab) ctrys() []geoip.Country {
+	if g.ctryNames != nil {
+		return g.ctryNames
+	}
+
+	return ctryNames
+}
+
+func (g *geoTab) subdivs() []string {
+	if g.subdivNames != nil {
+		return g.subdivNames
+	}
+
+	return subdivNames
+}
+
+func (g *geoTab) asnOf(i int) geoip.ASN {
+	if g.asnIsValue {
+		return geoip.ASN(i)
+	}
+
+	return asnVals[i]
+}
+
+func (g *geoTab) asnIdx(a geoip.ASN) int {
+	if g.asnIsValue {
+		return int(a)
+	}
+
+	return idxOf(asnVals, a)
 }
 
 type scenario struct {
@@ -96,15 +139,15 @@ type scenario struct {
 func (g geoTab) MarshalJSON() ([]byte, error) {
 	var ds, ss []string
 	for a, l := range g.Data {
-		ds = append(ds, fmt.Sprintf("%s -> country %q subdivision %q asn %d", a, ctryNames[l.Ctry], subdivNames[l.Subdiv], asnVals[l.ASN]))
+		ds = append(ds, fmt.Sprintf("%s -> country %q subdivision %q asn %d", a, g.ctrys()[l.Ctry], g.subdivs()[l.Subdiv], g.asnOf(l.ASN)))
 	}
 	for k, v := range g.Sub {
 		val := "error"
 		if !v.Err {
 			val = v.P.String()
 		}
-		ss = append(ss, fmt.Sprintf("country %q subdivision %q asn %d ipv%d -> %s", ctryNames[k.Loc.Ctry], subdivNames[k.Loc.Subdiv],
-			asnVals[k.Loc.ASN], k.Fam, val))
+		ss = append(ss, fmt.Sprintf("country %q subdivision %q asn %d ipv%d -> %s", g.ctrys()[k.Loc.Ctry], g.subdivs()[k.Loc.Subdiv],
+			g.asnOf(k.Loc.ASN), k.Fam, val))
 	}
 	sortStrings(ds)
 	sortStrings(ss)
@@ -132,7 +175,7 @@ func (g *geoTab) loc(a netip.Addr) *geoip.Location {
 		return nil
 	}
 
-	return &geoip.Location{Country: ctryNames[li.Ctry], TopSubdivision: subdivNames[li.Subdiv], ASN: asnVals[li.ASN]}
+	return &geoip.Location{Country: g.ctrys()[li.Ctry], TopSubdivision: g.subdivs()[li.Subdiv], ASN: g.asnOf(li.ASN)}
 }
 
 func idxOf[T comparable](xs []T, x T) int {
@@ -146,7 +189,7 @@ func idxOf[T comparable](xs []T, x T) int {
 }
 
 func (g *geoTab) subnet(l *geoip.Location, fam netutil.AddrFamily) (netip.Prefix, error) {
-	k := subKey{Loc: locIdx{idxOf(ctryNames, l.Country), idxOf(subdivNames, l.TopSubdivision), idxOf(asnVals, l.ASN)}, Fam: 4}
+	k := subKey{Loc: locIdx{idxOf(g.ctrys(), l.Country), idxOf(g.subdivs(), l.TopSubdivision), g.asnIdx(l.ASN)}, Fam: 4}
 	if fam == netutil.AddrFamilyIPv6 {
 		k.Fam = 6
 	}
@@ -300,10 +343,15 @@ type runner struct {
 func newRunner(g *geoTab, ecsCount, noECSCount int) (rn *runner) {
 	rn = &runner{}
 	geoData := func(_ string, ip netip.Addr) (*geoip.Location, error) { return g.loc(ip), nil }
+	geoSubnet := g.subnet
+	if g.liveData != nil {
+		geoData = func(_ string, ip netip.Addr) (*geoip.Location, error) { return g.liveData(ip), nil }
+		geoSubnet = g.liveSubnet
+	}
 	rn.st = stack.New(&stack.Config{
 		Cache:     &dnssvc.CacheConfig{Type: dnssvc.CacheTypeECS, ECSCount: ecsCount, NoECSCount: noECSCount},
 		GeoData:   geoData,
-		GeoSubnet: g.subnet,
+		GeoSubnet: geoSubnet,
 		Upstream: dnsserver.HandlerFunc(func(ctx context.Context, rw dnsserver.ResponseWriter, req *dns.Msg) error {
 			rn.lastUp = req.Copy()
 			switch rn.cur.Up.Kind {
@@ -319,7 +367,7 @@ func newRunner(g *geoTab, ecsCount, noECSCount int) (rn *runner) {
 	rn.twin = stack.New(&stack.Config{
 		Cache:     &dnssvc.CacheConfig{Type: dnssvc.CacheTypeECS, ECSCount: 10, NoECSCount: 10},
 		GeoData:   geoData,
-		GeoSubnet: g.subnet,
+		GeoSubnet: geoSubnet,
 		Upstream: dnsserver.HandlerFunc(func(ctx context.Context, rw dnsserver.ResponseWriter, req *dns.Msg) error {
 			rn.lastTwinUp = req.Copy()
 
@@ -364,6 +412,15 @@ func runScenario(sc *scenario, ecsCount, noECSCount int) (os []obs) {
 // Canonical text.
 
 func natOf(b []byte) string { return new(big.Int).SetBytes(b).String() }
+
+func parseBig(s string) *big.Int {
+	v, ok := new(big.Int).SetString(s, 10)
+	if !ok {
+		return new(big.Int)
+	}
+
+	return v
+}
 
 func addrNat(a netip.Addr) string { return natOf(a.AsSlice()) }
 
@@ -510,14 +567,14 @@ func (sc *scenario) lines() (ls []string) {
 	// Sorted for a canonical text.
 	var ds, ss []string
 	for a, l := range sc.Geo.Data {
-		ds = append(ds, fmt.Sprintf("data %d %s %d %d %d", famOf(a), addrNat(a), l.Ctry, l.Subdiv, asnVals[l.ASN]))
+		ds = append(ds, fmt.Sprintf("data %d %s %d %d %d", famOf(a), addrNat(a), l.Ctry, l.Subdiv, sc.Geo.asnOf(l.ASN)))
 	}
 	for k, v := range sc.Geo.Sub {
 		pf, pa, pb := 0, "0", 0
 		if !v.Err {
 			pf, pa, pb = famOf(v.P.Addr()), addrNat(v.P.Addr()), v.P.Bits()
 		}
-		ss = append(ss, fmt.Sprintf("sub %d %d %d %d %d %s %d", k.Loc.Ctry, k.Loc.Subdiv, asnVals[k.Loc.ASN], k.Fam, pf, pa, pb))
+		ss = append(ss, fmt.Sprintf("sub %d %d %d %d %d %s %d", k.Loc.Ctry, k.Loc.Subdiv, sc.Geo.asnOf(k.Loc.ASN), k.Fam, pf, pa, pb))
 	}
 	sortStrings(ds)
 	sortStrings(ss)
@@ -1320,6 +1377,10 @@ func genOpts(rng *rand.Rand, remote4 bool) (opts []optDesc) {
 		} else {
 			opts = append(opts, genValidECS(rng, rng.IntN(2) == 0))
 		}
+		if rng.IntN(3) == 0 {
+			// Any order: the malformed / second option may come first.
+			rng.Shuffle(len(opts), func(i, j int) { opts[i], opts[j] = opts[j], opts[i] })
+		}
 	}
 	if rng.IntN(4) == 0 {
 		opts = append(opts, other())
@@ -1395,6 +1456,10 @@ func genReq(rng *rand.Rand, nClients, nHosts int) (rd reqDesc) {
 		}
 	}
 	rd.QClass = dns.ClassINET
+	if rng.IntN(10) == 0 {
+		// Same name and type in another class is another question.
+		rd.QClass = dns.ClassCHAOS
+	}
 	switch r := rng.IntN(24); {
 	case r < 4:
 		// no OPT RR
@@ -1487,7 +1552,8 @@ func shrinkGeo(g geoTab, reqs []reqDesc, ecsCount, noECSCount int, sig string) (
 		ents = append(ents, byText[t])
 	}
 	build := func(sub []ent) (t geoTab) {
-		t = geoTab{Data: map[netip.Addr]locIdx{}, Sub: map[subKey]subVal{}}
+		t = g
+		t.Data, t.Sub = map[netip.Addr]locIdx{}, map[subKey]subVal{}
 		for _, e := range sub {
 			if e.isSub {
 				t.Sub[e.k] = e.v
@@ -1509,7 +1575,11 @@ func shrinkGeo(g geoTab, reqs []reqDesc, ecsCount, noECSCount int, sig string) (
 
 // runCase runs one scenario: real code, oracle, model comparison.
 func runCase(r *hlib.Result, m *hlib.Model, sc *scenario, ecsCount, noECSCount int, withModel bool) {
-	os := runScenario(sc, ecsCount, noECSCount)
+	runCaseObs(r, m, sc, runScenario(sc, ecsCount, noECSCount), ecsCount, noECSCount, withModel)
+}
+
+// runCaseObs is runCase for observations os that were already made.
+func runCaseObs(r *hlib.Result, m *hlib.Model, sc *scenario, os []obs, ecsCount, noECSCount int, withModel bool) {
 	count := r.Count
 	vs := oracle(sc, os, count)
 	seen := map[string]bool{}
@@ -1538,6 +1608,11 @@ func runCase(r *hlib.Result, m *hlib.Model, sc *scenario, ecsCount, noECSCount i
 	}
 
 	lines := sc.lines()
+	if ecsCount < 1000 || noECSCount < 1000 {
+		// Small LRU caches: the driver keeps the recency lists and turns
+		// evictions into the model's drop events.
+		lines = append([]string{lines[0], fmt.Sprintf("cap %d %d", noECSCount, ecsCount)}, lines[1:]...)
+	}
 	nontrivial := false
 	hits, formerrs, ups := 0, 0, 0
 	for i := range os {
@@ -1611,7 +1686,7 @@ func main() {
 		"/0 / malformed / duplicated / second OPT RR) through the production handler stack with the ECS cache and a scripted recording upstream; " +
 		"GeoIP subnets come from a fixed pool or from a per-case pool of neighbours (one stem at several lengths, byte-aligned or not, and same-length siblings " +
 		"differing in one bit); a partition campaign (every client its own location, scoping upstream) and a sweep over every prefix length of both " +
-		"families (A asks, B asks, A, B for sibling / same-address-other-length / zero-prefix pairs); every request is also sent through a cold twin; the oracle checks upstream privacy, opt-out, partition of scoped answers, ECS echo and " +
+		"families (A asks, B asks, A, B for sibling / same-address-other-length / zero-prefix pairs); every option order (lists of up to 3-4 options over valid / opt-out / malformed, in the query and in the upstream's answer); overlapping requests under a deterministic barrier schedule (started one by one up to the upstream call, completed in another order; random groups and all begin/finish orders of groups of 2-3); the real geoip.File over generated MaxMind databases (SubnetByLocation for every location against the Lean GeoDB model and a database-level oracle; histories through the stack with the real File); every request is also sent through a cold twin; the oracle checks upstream privacy, opt-out, partition of scoped answers, ECS echo and " +
 		"FORMERR on the recorded traffic; the same op lines go to the Lean model and outputs are compared; a case is non-trivial when it has " +
 		"at least one cache hit and one upstream exchange; distinct = distinct op texts"
 	m := hlib.StartModel(o.Model, "C05")
@@ -1625,17 +1700,45 @@ func main() {
 	for i := 0; i < n; i++ {
 		runCase(r, m, genScenario(rng, maxLen), 10000, 10000, true)
 	}
-	// Tiny caches: LRU eviction happens; oracle only (the model has no eviction).
+	// Tiny caches: LRU eviction happens (drop events of the model).
 	rng = o.Rand("small-cache")
 	for i := 0; i < n/5; i++ {
-		runCase(r, m, genScenario(rng, maxLen), 1+rng.IntN(3), 1+rng.IntN(3), false)
+		ec, nc := 1+rng.IntN(3), 1+rng.IntN(3)
+		if i%2 == 0 {
+			runCase(r, m, genScenario(rng, maxLen), ec, nc, true)
+		} else {
+			runCase(r, m, genPartitionScenario(rng), ec, nc, true)
+		}
+		r.Count("small_cache.cases")
 	}
 	// Neighbouring GeoIP subnets, scoping upstream, few questions.
 	rng = o.Rand("partition")
 	for i := 0; i < n/4; i++ {
 		runCase(r, m, genPartitionScenario(rng), 10000, 10000, true)
 	}
+	// Overlapping requests under a deterministic schedule.
+	concCampaign(r, m, o.Rand("overlapping"), n/5)
+	exhaustiveConc(r, m, 2)
+	if o.Thorough() {
+		exhaustiveConc(r, m, 3)
+		r.Notes = append(r.Notes, "exhaustive: every group of 2 and of 3 overlapping requests over 2 clients x {no ECS, ECS in AD, /0, ECS in US} for one question, "+
+			"under every begin order and every finish order")
+	}
 	prefixSweep(r, m, o.Thorough())
+	orderDepth := 3
+	if o.Thorough() {
+		orderDepth = 4
+		r.Notes = append(r.Notes, "exhaustive: every option list of up to 4 options over {other, valid v4, valid v6, /0, 3 malformed kinds} in the query's OPT RR "+
+			"(alone and behind another OPT RR), every list of up to 3 over {EDE, scoped, unscoped, v6 scoped, malformed} in the upstream's answer")
+	}
+	optionOrderCampaign(r, m, orderDepth)
+	// The real geoip.File over generated MaxMind databases.
+	nDB := n / 100
+	if o.Thorough() {
+		nDB = n / 40
+	}
+	geoFileCampaign(r, m, o.Rand("geoip-file"), nDB, 8)
+	geoCacheFinding(r, o.Rand("geoip-cache"), 6)
 	fixedCases(r, m)
 	unitCampaign(r, m)
 	if o.Thorough() {
